@@ -6,10 +6,13 @@
 (* State: sec = the UE's security state according to the specification;    *)
 (* rx = the state of a conformant receiver (AMF) holding the same keys.    *)
 (* Events: Start (history begins: keys, algorithms, counters), Enc (one    *)
-(* uplink message), Dec (one downlink message, see GenNasDl.tla).          *)
+(* uplink message), Dec (one downlink message, see GenNasDl.tla).  A        *)
+(* history may hold several UE contexts used alternately (field ctx): the  *)
+(* state is kept per context, so a counter or key shared between contexts  *)
+(* in the implementation cannot be explained.                              *)
 (***************************************************************************)
 EXTENDS TraceBase, NasAlg
-VARIABLES l, bad, sec, rx
+VARIABLES l, bad, secs, rxs      \* per context
 
 CMac(alg, key, count, b, d, m) == Nia(alg, key, BE(count, 4), b, d, <<m[1]>> \o m[2])
 CCipher(alg, key, count, b, d, msg) == Nea(alg, key, BE(count, 4), b, d, msg)
@@ -23,7 +26,7 @@ StartSec(e) == [ul |-> e.ul, dl |-> e.dl, kEnc |-> e.kenc, kInt |-> e.kint, encA
 RxOf(s) == [s EXCEPT !.ul = IF s.ul = 0 THEN 0 ELSE s.ul - 1]
 
 \* returns [r: verdict, sec: next sec, rx: next rx]
-StepEnc(e) ==
+StepEnc(e, sec, rx) ==
    IF ~e.avail
    THEN [r |-> FirstBad(<< <<~e.err, "sending without a security context failed">>,
                            <<e.out = e.plain, "without a security context the message must be sent unchanged">>,
@@ -50,7 +53,7 @@ StepEnc(e) ==
             sec |-> nsec, rx |-> RxOf(nsec)]
 
 \* downlink: the PDU was produced by the specification's AMF (GenNasDl); the expectation is recomputed here
-StepDec(e) ==
+StepDec(e, sec, rx) ==
    LET u == S!Unprotect(sec, IF e.hdr = 0 THEN [hdr |-> 0, body |-> e.pdu] ELSE Parse(e.pdu), S!DirDown)
        nsec == [u.sec EXCEPT !.dl = e.obs.dl]
    IN [r |-> FirstBad(<<
@@ -61,7 +64,7 @@ StepDec(e) ==
        sec |-> nsec, rx |-> rx]
 
 \* the counter type itself (security.Count): one row = one overflow value x a list of sequence numbers
-StepCount(e) ==
+StepCount(e, sec, rx) ==
    LET n == Len(e.sqns)
        okAt(i) == LET c == S!MkCount(e.ovf, e.sqns[i]) nx == S!AddOne(c) IN
                   /\ e.get[i] = c /\ e.sqnOut[i] = S!Sqn(c) /\ e.ovfOut[i] = S!Ovf(c) /\ e.sqnOut[i] = e.sqns[i] /\ e.ovfOut[i] = e.ovf
@@ -77,16 +80,18 @@ StepCount(e) ==
                             S!MkCount(S!Ovf(S!AddOne(S!MkCount(e.ovf, e.sqns[i]))), e.x), S!MkCount(e.y, e.x)>>)),
     sec |-> sec, rx |-> rx]
 
-Init == l = 1 /\ bad = 0 /\ sec = NoSec /\ rx = NoSec
+Ctxs == 0..3
+Cx(e) == IF "ctx" \in DOMAIN e THEN e.ctx ELSE 0
+Init == l = 1 /\ bad = 0 /\ secs = [c \in Ctxs |-> NoSec] /\ rxs = [c \in Ctxs |-> NoSec]
 Next == /\ l <= Len(Trace)
-        /\ LET e == Trace[l] IN
-             IF e.ev = "Start" THEN sec' = StartSec(e) /\ rx' = RxOf(StartSec(e)) /\ bad' = bad
-             ELSE LET s == IF e.ev = "Enc" THEN StepEnc(e)
-                           ELSE IF e.ev = "Dec" THEN StepDec(e)
-                           ELSE IF e.ev = "Count" THEN StepCount(e)
-                           ELSE [r |-> No("no action of the specification matches this event"), sec |-> sec, rx |-> rx]
+        /\ LET e == Trace[l] c == Cx(e) IN
+             IF e.ev = "Start" THEN secs' = [secs EXCEPT ![c] = StartSec(e)] /\ rxs' = [rxs EXCEPT ![c] = RxOf(StartSec(e))] /\ bad' = bad
+             ELSE LET s == IF e.ev = "Enc" THEN StepEnc(e, secs[c], rxs[c])
+                           ELSE IF e.ev = "Dec" THEN StepDec(e, secs[c], rxs[c])
+                           ELSE IF e.ev = "Count" THEN StepCount(e, secs[c], rxs[c])
+                           ELSE [r |-> No("no action of the specification matches this event"), sec |-> secs[c], rx |-> rxs[c]]
                   IN /\ Report(l, e, s.r)
-                     /\ sec' = s.sec /\ rx' = s.rx
+                     /\ secs' = [secs EXCEPT ![c] = s.sec] /\ rxs' = [rxs EXCEPT ![c] = s.rx]
                      /\ bad' = bad + (IF s.r.ok THEN 0 ELSE 1)
         /\ l' = l + 1
 Consumed == TLCGet("stats").diameter - 1 = Len(Trace)
